@@ -7,6 +7,7 @@
 #include <AIToolbox/Factored/Bandit/FlattenedModel.hpp>
 #include <AIToolbox/Factored/MDP/CooperativeModel.hpp>
 #include <tuple>
+#include <memory>
 #include "vio.hpp"
 using namespace AIToolbox::Factored;
 using AIToolbox::Vector;
@@ -176,7 +177,12 @@ static bool matrixCase(const std::string & kind, vio::Cursor & c, vio::Out & o) 
         }
         FactoredMatrix2D rewards = readFM(c);
         double discount = c.nextDouble();
-        MDP::CooperativeModel model(g, T, rewards, discount);
+        // the constructor validates every row of every table; a rejected model prints "throw"
+        std::unique_ptr<MDP::CooperativeModel> mp;
+        try { mp = std::make_unique<MDP::CooperativeModel>(g, T, rewards, discount); }
+        catch (const std::invalid_argument &) { o << "throw"; return true; }
+        o << "ok";
+        MDP::CooperativeModel & model = *mp;
         size_t nq = c.nextSize();
         for (size_t q = 0; q < nq; ++q) {
             State s = readFactors(c); Action a = readFactors(c);
@@ -192,7 +198,21 @@ static bool matrixCase(const std::string & kind, vio::Cursor & c, vio::Out & o) 
             o.list(s1c); o << (size_t) rc.size();
             for (long i = 0; i < rc.size(); ++i) o << (double) rc[i];
             o << model.getExpectedReward(s, a, s1c);
+            // the whole joint distribution of the accepted model
+            const size_t NS = factorSpace(S);
+            o << NS;
+            for (size_t i = 0; i < NS; ++i) o << model.getTransitionProbability(s, a, toFactors(S, i));
         }
+        return true;
+    }
+
+    if (kind == "subop2d") {        // S A retval rhs   (rhs tags contained in retval's): plusEqualSubset and plusSubset
+        Factors S = readFactors(c), A = readFactors(c);
+        BasisMatrix l = readBM(c), r = readBM(c);
+        BasisMatrix byValue = plusSubset(S, A, l, r);
+        plusEqualSubset(S, A, l, r);
+        FactoredMatrix2D out; out.bases.push_back(l); out.bases.push_back(byValue);
+        outFM(o, out);
         return true;
     }
     if (kind == "fm") {             // op S A fm args -> resulting bases, flat values at every (s, a)
